@@ -111,6 +111,11 @@ LOG (decisions)
   model_fixpoint_x is false too); attribution by repair = clear overload / sanitise domain and name.  Proposed fix +
   demo in proposed_fixes/C17-experimental-function-value-info-function-id*.  ModelOld.exp_lookup treats X as a
   relation (x_has) so that the fixed reader (prefix match against the existing functions) needs a table change only.
+  FIXED upstream 348a4f1 (prefix match against the existing functions); exp_tables (c03.py) computes X as that relation.
+  Under the new reader the open name-collision finding keeps its shape and widens: ONE composite name for TWO values =
+  main-graph value named like "D::F/a" (now for any overload of D::F), the same value name in two overloads of one
+  (domain, name) (fn_id_odd variant 5), or qualified prefixes made ambiguous by separators (D::F value "x/a" vs D::"F/x"
+  value "a"); all confirmed on 348a4f1; one repair covers them.
 * repair_known_sites applies ONLY the repair of the finding being tested (round 5: the shared repair also removed empty
   value_info entries = the site of the FIXED finding 420823a, which attributed seeded C17-r5m3 to the open finding).
 * Round 5: mutation type_degenerate (`type {}`, `type { tensor_type {} }`, explicit elem_type 0 with/without shape,
@@ -649,6 +654,34 @@ def mutate(m, rng, kind=None):
                     return None
                 ty = rng.choice(tys)
             degenerate_type(ty, rng.randrange(6))
+        elif kind == "fn_id_odd":
+            # function identifiers the IR<10 "domain::function/value" naming scheme cannot carry: an overload, a
+            # domain / name containing the separators, two overloads of one (domain, name); the function gets typed
+            # values so that the scheme is used
+            if not len(m.functions):
+                return None
+            f = rng.choice(m.functions)
+            typed = [x for x in list(f.input) + [o for n in f.node for o in n.output] if x]
+            if typed and not len(f.value_info):
+                f.value_info.append(H.make_tensor_value_info(rng.choice(typed), TP.FLOAT, [2]))
+            v = rng.randrange(6)
+            if v == 0:
+                f.overload = "ov"
+            elif v == 1:
+                f.domain = "custom::dom"
+            elif v == 2:
+                f.domain = "cust/dom"
+            elif v == 3:
+                f.name = f.name + "/x"
+            elif v == 4:
+                f.name = f.name + "::x"
+            else:           # a second overload of the same (domain, name) with untyped values
+                f2 = m.functions.add()
+                f2.CopyFrom(f)
+                f2.overload = "ov2"
+                del f2.value_info[:]
+            if rng.random() < 0.6:
+                m.ir_version = rng.choice([9, 8, 3])
         elif kind == "map_type":
             tys = all_types(m)
             if not tys:
@@ -1579,6 +1612,22 @@ def _repair_name_collision(q) -> bool:
             if isinstance(k, str) and "::" in k and "/" in k:
                 put(k.replace("::", "__"))
                 changed = True
+    if q.ir_version < 10:
+        # since 348a4f1 the reader matches by prefix "{domain}::{name}/" for any overload: two functions sharing
+        # (domain, name) with different overloads, or qualified prefixes made ambiguous by separators inside the
+        # domain / name, give one composite name to two values as well
+        seen = {}
+        for f in q.functions:
+            for fld in ("domain", "name"):
+                k = getattr(f, fld)
+                if "::" in k or "/" in k:
+                    setattr(f, fld, k.replace("::", "__").replace("/", "_"))
+                    changed = True
+            key = (f.domain, f.name)
+            if key in seen and seen[key] != f.overload:
+                f.name = f"{f.name}__{len(seen)}"
+                changed = True
+            seen.setdefault((f.domain, f.name), f.overload)
     return changed
 
 
